@@ -377,6 +377,21 @@ def check_flatten(run, A):
         run.check(all(reaches_param_avoiding(r_, 'signal', shape_only) for r_ in ret_alts(g)), 'FORM', f'{name}: the mask depends on the values of the signal', fn.loc(), '',
                   'no data path from the returned mask to `signal` other than through its shape / dtype: the buffer of the mask is never filled with the comparison',
                   construct=f'FORM::{q}::filled')
+        if name == 'lorenz_mask':
+            # the high level is set by COMPARING the power with the threshold (strictly above): a selection by rank (positions of an argsort) splits points of equal power
+            all_t = [x for e_ in g.events if e_.term is not None for x in walk_terms(e_.term)] + list(walk_terms(g.ret))
+            by_rank = [e_ for e_ in g.events if e_.kind == 'store' and any(is_call_to(y, 'numpy.argsort', 'method:argsort', 'numpy.argpartition') for y in walk_terms(e_.term.args[1]))]
+            gt = [x for x in all_t if x.op == 'cmp' and x.args[0] in ('Gt', 'Lt') and any(is_call_to(y, 'numpy.min', 'numpy.amin', 'method:min', 'numpy.max', 'numpy.amax', 'numpy.sort', 'method:sort')
+                                                                                     for z in (x.args[1], x.args[2]) for y in walk_terms(z))]
+            closures = [x for x in all_t if x.op == 'closure' or (x.op == 'call' and x.args[0].op == 'closure')]
+            if by_rank:
+                run.violation('FORM', 'lorenz_mask: points strictly stronger than the threshold get the high level', fn.loc(by_rank[0].node),
+                              f'`{norm_stmt(by_rank[0].node)}` selects the strong points by their RANK in a sort: points whose power equals the threshold power are split between the two '
+                              f'levels (the definition puts all of them at the low level)', construct=f'FORM::{q}::selected-by-rank')
+            elif gt or closures:
+                run.ok('FORM', 'lorenz_mask: points strictly stronger than the threshold get the high level', fn.loc(), 'the mask is a comparison with the threshold power')
+            else:
+                run.unresolved('FORM', 'lorenz_mask: points strictly stronger than the threshold get the high level', fn.loc(), 'no comparison of the power with a threshold found')
         # a row loop over the 2-D working array visits every row
         W2 = rsh[0]
         for idx_, val_, node_ in indexed_values(g):
